@@ -159,7 +159,7 @@ func runSharedHistory(c *rig.Ctx, prop string, env *storeEnv, label string, r *r
 			rec: rec.add, putRec: model.add, fresh: env.fresh,
 			freshRec:   func(fo freshObs) { fmu.Lock(); fobs = append(fobs, fo); fmu.Unlock() },
 			anomaly:    func(k, w string) { amu.Lock(); anomalies[k] = w; amu.Unlock() },
-			freshAfter: 35, maxBody: 120}
+			freshAfter: 50, maxBody: 120}
 		if !initial.IsEmpty() {
 			cl.seen = []hash.Hash{initial}
 		}
@@ -243,7 +243,7 @@ func c02Goroutines(c *rig.Ctx) {
 	c.Rule(c02Rule)
 	c.Assume("Commit(x,x) on a handle shared with other clients is recorded as rebase-or-CAS (either outcome legal, DESIGN A.1)")
 	c.Assume("the datas.Database retry loop on top of the store (DESIGN C02 W(c)) is not driven here")
-	n := c.Pick(22, 700)
+	n := c.Pick(18, 700)
 	orders := map[string]bool{}
 	wins := 0
 	mems := []uint64{1 << 10, 8 << 10, 1 << 20}
@@ -345,7 +345,7 @@ func actorMain(args []string) int {
 			fresh:      func() (chunks.ChunkStore, error) { return openActorStore(sp) },
 			freshRec:   func(fo freshObs) { out.Fresh = append(out.Fresh, fo) },
 			anomaly:    func(k, w string) { out.Anomalies[k] = w },
-			freshAfter: 40, maxBody: 120}
+			freshAfter: 100, maxBody: 120}
 		if !cl.cv.IsEmpty() {
 			cl.seen = []hash.Hash{cl.cv}
 		}
